@@ -13,6 +13,7 @@ They hold over any nontrivially normed field: ℝ, ℂ (complex step), ℚ (the 
 import GemseoVerif.Lemmas.C10Tree
 import GemseoVerif.Analysis.C10Aggregation
 import GemseoVerif.Lemmas.C10Ordered
+import GemseoVerif.Lemmas.C10TreeR
 
 namespace GV.C10
 
@@ -339,6 +340,172 @@ theorem convex_linear_matches_at_expansion_point (n : ℕ) (thr : ℝ) (hthr : 0
   convexLin_value_at_expansion_point n thr hthr J0 xh mask fm i
 
 end SpecialNodes
+
+/-! ### The complete tree language over ℝ -/
+
+section RealTrees
+
+/-- **Main theorem, all node kinds (ℝ).** Every tree the harness builds — the algebraic fragment
+    plus second-order Taylor polynomials, convex linearisations and sum-of-squares / positive
+    sum-of-squares / max aggregations, arbitrarily nested — evaluates to the function `denR` it
+    denotes and its Jacobian is the exact derivative, at every point where no divisor vanishes,
+    off the switching sets of the convex linearisations and where maximisers are unique. -/
+theorem real_tree_value_and_jacobian_exact
+    (env : ℕ → ℕ → (ℕ → ℝ) → DV ℝ) (envF : ℕ → ℕ → (ℕ → ℝ) → ℕ → ℝ) (envM : ℕ → ℕ → ℕ) (thr : ℝ)
+    (hthr : 0 ≤ thr) (henv : ∀ id n y, Den n y (env id n y) (envF id n) (envM id n))
+    {n : ℕ} {e : Expr ℝ} {M : ℕ} (hwf : WFR envM n e M) :
+    ∀ x, SafeR envF envM thr n e x → Den n x (evalTree env thr n e x) (denR envF envM thr n e) M := by
+  induction hwf with
+  | user n id =>
+    intro x _
+    simpa [evalTree, build, Obj.eval, denR] using henv id n x
+  | poly n ps hps =>
+    intro x _
+    simpa [evalTree, build, Obj.eval, denR] using polyDV_den n ps hps x
+  | lin n m A b =>
+    intro x _
+    exact LinF.den { m := m, n := n, A := mat A, b := vec b } x
+  | quad n Q b c =>
+    intro x _
+    exact QuadF.den { n := n, Q := mat Q, b := vec b, c := c } x
+  | @bin n a b Ma Mb op hwa hwb hc iha ihb =>
+    intro x hs
+    obtain ⟨hsa, hsb, hdiv⟩ := hs
+    have ha := iha x hsa
+    have hb := ihb x hsb
+    have da := hwa.dimOf_eq
+    have db := hwb.dimOf_eq
+    cases op with
+    | add => simpa [evalTree, build, Obj.eval, DV.bin, denR, binFn, da, db] using Den.add ha hb hc
+    | sub => simpa [evalTree, build, Obj.eval, DV.bin, denR, binFn, da, db] using Den.sub ha hb hc
+    | mul => simpa [evalTree, build, Obj.eval, DV.bin, denR, binFn, da, db] using Den.mul ha hb hc
+    | div =>
+      have hnz : ∀ i, i < Mb → denR envF envM thr n b x i ≠ 0 := by
+        intro i hi; exact hdiv rfl i (by rw [db]; exact hi)
+      simpa [evalTree, build, Obj.eval, DV.bin, denR, binFn, da, db] using Den.div ha hb hc hnz
+  | @binC n a M op c hwa iha =>
+    intro x hs
+    have ha := iha x hs.1
+    cases op with
+    | add => simpa [evalTree, build, Obj.eval, DV.binC, denR, binFn] using Den.addC ha c
+    | sub => simpa [evalTree, build, Obj.eval, DV.binC, denR, binFn] using Den.subC ha c
+    | mul => simpa [evalTree, build, Obj.eval, DV.binC, denR, binFn] using Den.mulC ha c
+    | div => simpa [evalTree, build, Obj.eval, DV.binC, denR, binFn] using Den.divC ha c
+  | @neg n a M hwa iha =>
+    intro x hs
+    have ha := iha x hs
+    simp only [evalTree] at ha ⊢
+    cases hb : build env thr n a with
+    | linear L =>
+      rw [hb] at ha
+      simpa [build, hb, Obj.eval, denR] using LinF.neg_den ha
+    | generic f =>
+      rw [hb] at ha
+      simpa [build, hb, Obj.eval, denR] using Den.neg ha
+  | @offset n a M c hwa iha =>
+    intro x hs
+    have ha := iha x hs
+    simp only [evalTree] at ha ⊢
+    cases hb : build env thr n a with
+    | linear L =>
+      rw [hb] at ha
+      simpa [build, hb, Obj.eval, denR] using LinF.offset_den c ha
+    | generic f =>
+      rw [hb] at ha
+      simpa [build, hb, Obj.eval, denR] using Den.addC ha c
+  | @restrict n N a M fz vals hwa hnd hn iha =>
+    intro x hs
+    have ha := iha (extendPt N fz vals x) hs
+    simpa [evalTree, build, Obj.eval, denR] using Den.restrict hnd hn ha
+  | @lrestrict n a M fz vals hwa hnd hlt hn iha =>
+    intro x hs
+    have ha := iha (extendPt (n + fz.length) fz vals x) hs
+    simp only [evalTree] at ha ⊢
+    cases hb : build env thr (n + fz.length) a with
+    | linear L =>
+      rw [hb] at ha
+      have hL := build_linear_n env thr a (n + fz.length) L hb
+      simpa [build, hb, Obj.eval, denR] using LinF.restrict_den vals hL hnd hlt hn ha
+    | generic f =>
+      rw [hb] at ha
+      simpa [build, hb, Obj.eval, denR] using Den.restrict hnd hn ha
+  | @lincomp n K a M A hwa iha =>
+    intro x hs
+    have ha := iha (matVec n (mat A) x) hs
+    simpa [evalTree, build, Obj.eval, denR] using Den.lincomp (mat A) ha
+  | @concat n a b Ma Mb hwa hwb iha ihb =>
+    intro x hs
+    have ha := iha x hs.1
+    have hb := ihb x hs.2
+    simpa [evalTree, build, Obj.eval, denR, hwa.dimOf_eq] using Den.concat ha hb
+  | @normalize n a M lb ub mask hwa hlin iha =>
+    intro u hs
+    have ha := iha (unnormalizePt n lb ub mask u) hs
+    obtain ⟨L, hb⟩ := hlin.build_linear env thr n
+    have hL := build_linear_n env thr a n L hb
+    simp only [evalTree] at ha ⊢
+    rw [hb] at ha
+    simpa [build, hb, Obj.eval, denR] using LinF.normalize_den lb ub mask hL ha
+  | @taylor1 n a M xh hwa iha =>
+    intro x hs
+    have ha := iha (vec xh) hs
+    simpa [evalTree, build, Obj.eval, denR] using taylor1_den ha x
+  | @taylor2 n a xh H hwa hsym iha =>
+    intro x hs
+    have ha := iha (vec xh) hs
+    have h2 : (1 + 1 : ℝ) ≠ 0 := by norm_num
+    simpa [evalTree, build, Obj.eval, denR] using taylor2_den ha (mat H) hsym h2 x
+  | @convexLin n a M xh mask hwa iha =>
+    intro x hs
+    obtain ⟨hs0, hsm, hreg⟩ := hs
+    have h0 := iha (vec xh) hs0
+    have hm := iha (mergePt (maskFn mask) (vec xh) x) hsm
+    have hJ : ∀ i j, i < M → j < n →
+        (evalTree env thr n a (vec xh)).jac i j
+          = deriv (fun t : ℝ => denR envF envM thr n a (vec xh + t • basisVec j) i) 0 :=
+      fun i j hi hj => ((h0.partial hi hj).deriv).symm
+    have hcl := convexLin_den hthr ((evalTree env thr n a (vec xh)).jac) (vec xh) (maskFn mask) hm hreg
+    have hcl' := hcl.congr (fun y i hi =>
+      clFn_congr_coeffs thr _ _ (vec xh) (maskFn mask) (denR envF envM thr n a) hJ y hi)
+    cases mask with
+    | none => simpa [evalTree, build, Obj.eval, denR, maskFn] using hcl'
+    | some l => simpa [evalTree, build, Obj.eval, denR, maskFn] using hcl'
+  | @agg n a M kind idx scale hwa hsel hpos iha =>
+    intro x hs
+    have ha := iha x hs.1
+    have da := hwa.dimOf_eq
+    cases kind with
+    | sumsq => simpa [evalTree, build, Obj.eval, denR, da] using aggSumSq_den ha idx scale hsel
+    | possumsq => simpa [evalTree, build, Obj.eval, denR, da] using aggPosSumSq_den ha idx scale hsel
+    | max =>
+      obtain ⟨K', hK⟩ := Nat.exists_eq_succ_of_ne_zero (Nat.pos_iff_ne_zero.1 (hpos rfl))
+      have huniq := hs.2 rfl
+      rw [da, hK] at huniq
+      simpa [evalTree, build, Obj.eval, denR, da, hK] using aggMax_den ha idx scale K' hK hsel huniq
+
+/-- Entry `(i, j)` of the Jacobian of any tree is the partial derivative (ℝ, all node kinds). -/
+theorem real_tree_jacobian_is_partial_derivative
+    (env : ℕ → ℕ → (ℕ → ℝ) → DV ℝ) (envF : ℕ → ℕ → (ℕ → ℝ) → ℕ → ℝ) (envM : ℕ → ℕ → ℕ) (thr : ℝ)
+    (hthr : 0 ≤ thr) (henv : ∀ id n y, Den n y (env id n y) (envF id n) (envM id n))
+    {n : ℕ} {e : Expr ℝ} {M : ℕ} (hwf : WFR envM n e M) (x : ℕ → ℝ) (hs : SafeR envF envM thr n e x)
+    {i j : ℕ} (hi : i < M) (hj : j < n) :
+    HasDerivAt (fun t : ℝ => denR envF envM thr n e (x + t • basisVec j) i)
+      ((evalTree env thr n e x).jac i j) 0 :=
+  (real_tree_value_and_jacobian_exact env envF envM thr hthr henv hwf x hs).partial hi hj
+
+/-- Non-vacuity: the max of the convex linearisation of a product of two vector-valued functions,
+    summed in squares with a linear function — special nodes nested in each other. -/
+example :
+    let f : Expr ℝ := .poly [[((1 : ℝ), [1, 1])], [((1 : ℝ), [1, 0]), ((1 : ℝ), [0, 1])]]
+    let g : Expr ℝ := .lin 2 [[1, 0], [0, 1]] [1, 1]
+    let e : Expr ℝ := .agg .sumsq none [2] (.convexLin [1, 1] none (.bin .mul f g))
+    WFR (fun _ _ => 0) 2 e 1 := by
+  intro f g e
+  refine WFR.agg _ _ _ (WFR.convexLin _ _ (WFR.bin .mul (WFR.poly 2 _ ?_) (WFR.lin 2 2 _ _) (Or.inl rfl)))
+    (fun k hk => by simpa [selLen, selIdx] using hk) (by intro h; cases h)
+  intro p hp m hm; simp at hp; rcases hp with rfl | rfl <;> simp at hm <;> rcases hm with rfl | rfl <;> simp
+
+end RealTrees
 
 /-! ### Smooth maximum aggregations bound the maximum from the documented side (ℝ) -/
 
